@@ -61,6 +61,27 @@ func (p *c13) Draw(t *rapid.T, tier string) *runner.Scenario {
 	case "map_order", "gomaxprocs":
 		wl := gen.Workload(t, lim)
 		cfg := gen.Cfg(t, lim)
+		if ex.Clause == "map_order" && rapid.IntRange(0, 2).Draw(t, "many_channels") == 0 {
+			// many channels, chunks that each touch only a few of them: per-chunk maps are
+			// sparse relative to the channel table
+			n := pick(t, "n_channels", 24, 32, 64, 100)
+			var extra []scen.Op
+			for c := 0; c < n; c++ {
+				extra = append(extra, scen.Op{Kind: scen.OpChannel, ID: uint16(1000 + c), Topic: scen.Str(fmt.Sprintf("/many/%d", c)), Encoding: "x"})
+			}
+			groups := rapid.IntRange(2, 8).Draw(t, "groups")
+			seq := uint32(900000)
+			for g := 0; g < groups; g++ {
+				k := rapid.IntRange(2, 4).Draw(t, "per_group")
+				for m := 0; m < 6; m++ {
+					seq++
+					ch := uint16(1000 + (g*7+m%k*3)%n)
+					extra = append(extra, scen.Op{Kind: scen.OpMessage, ChannelID: ch, Sequence: seq, LogTime: uint64(seq), Data: scen.Blob{Len: 60, Tag: uint64(seq)}})
+				}
+			}
+			wl.Ops = append(wl.Ops, extra...)
+			cfg.Chunked, cfg.ChunkSize, cfg.SkipMessageIndexing, cfg.SkipChunkIndex = true, 400, false, false
+		}
 		ex.Reps = 8
 		if tier == "thorough" {
 			ex.Reps = 32
@@ -373,6 +394,25 @@ func (p *c13) Check(sc *runner.Scenario, st *runner.Stats, pin string) *runner.V
 			}
 			st.Evaluations++
 			return s.result()
+		}
+		// the two runs of the writer share one options value, as a caller reusing its
+		// configuration for several files would
+		shared := drive.WriterOptions(ex.Tasks[0].Cfg)
+		runShared := func() []byte {
+			sink := simdisk.NewSink(nil)
+			res := drive.RunWriter(ex.Tasks[0].Cfg, ex.Tasks[0].WL, sink, drive.WriteOpts{Options: shared})
+			st.Evaluations++
+			h := sha256.New()
+			h.Write(sink.Data)
+			fmt.Fprintf(h, "|%s", res.FirstProblem())
+			return h.Sum(nil)
+		}
+		if ex.Tasks[0].Cfg.Custom == "" { // a custom compressor instance is stateful by design and is not shared
+			a, b := runShared(), runShared()
+			if !bytes.Equal(a, b) && pinned(pin, "history") {
+				return viol(sc, "history", "two writers (%s) created one after the other from the same options value produced different output", gen.CfgClass(ex.Tasks[0].Cfg))
+			}
+			st.Inc("fault.schedule.shared_options_runs")
 		}
 		first := run(ex.Tasks[0], nil)
 		for i, tk := range ex.Tasks[1:] {
